@@ -964,6 +964,11 @@ func tiRunHistory(calls []string, tags map[string]bool) {
 		if len(f) == 0 {
 			continue
 		}
+		if strings.HasPrefix(f[0], "@") { // a registry lookup made before the calls of the line (what it returns is not used)
+			_, _ = terminfo.LookupTerminfo(string(h.Unhex(f[0][1:])))
+			tags["lookup-before-call"] = true
+			continue
+		}
 		prog := h.Unhex(f[0])
 		var params []interface{}
 		for _, p := range f[1:] {
@@ -977,6 +982,20 @@ func tiRunHistory(calls []string, tags map[string]bool) {
 		tpTags(prog, tags)
 		ti.TParm(string(prog), params...)
 	}
+}
+
+// tiSiblingLookups: lookups of the names the database synthesizes from this entry's family (NAME-256color, NAME-truecolor of the
+// base of NAME-color / NAME-88color / NAME): what TColor / TGoto of the entry itself yield is no function of them
+func tiSiblingLookups(r *h.Rand, name string) []string {
+	base := name
+	for _, sfx := range []string{"-256color", "-88color", "-16color", "-color", "-truecolor"} {
+		base = strings.TrimSuffix(base, sfx)
+	}
+	var out []string
+	for k := r.Range(1, 2); k > 0; k-- {
+		out = append(out, "@"+h.Hex([]byte(base+h.Pick(r, []string{"-256color", "-256color", "-truecolor", "-88color", ""}))))
+	}
+	return out
 }
 
 func tiHistorySuffix(calls []string) string {
@@ -1213,6 +1232,14 @@ func genTPuts(g *h.Gen) {
 	for i := g.N(150, 5000); i > 0 && len(hs) > 0; i-- {
 		emit("-", h.Pick(r, hs), tiHistorySuffix(tiHistoryCalls(r, hdbs)))
 	}
+	// the Go-side timing oracle in every tier (about 0.2 s): PadChar set => every delay of the string is honoured, whatever
+	// specifications precede it in the same string
+	for _, t := range []struct {
+		s  string
+		ms int
+	}{{"A$<0.5>B$<40>C", 40}, {"$<1.5>$<25>$<10>", 36}, {"$<2.>x$<30>", 32}, {"$<12>$<0.9>$<20>", 32}} {
+		emit("00", t.s, " "+strconv.Itoa(t.ms))
+	}
 	if g.Thorough() { // the Go-side timing oracle: PadChar set => the delay is honoured; PadChar empty => no sleep
 		for _, t := range []struct {
 			s  string
@@ -1335,7 +1362,16 @@ func genTColor(g *h.Gen) {
 		for k := g.R.Range(1, 4); k > 0; k-- {
 			bs = append(bs, h.Pick(g.R, C))
 		}
-		g.Emit("tcolor %s %d %s%s", h.Pick(g.R, ents).name, h.Pick(g.R, C), tiShowList(bs), tiHistorySuffix(tiHistoryCalls(g.R, dbs)))
+		en := h.Pick(g.R, ents).name
+		hist := tiHistoryCalls(g.R, dbs)
+		if g.R.Chance(40) {
+			hist = append(tiSiblingLookups(g.R, en), hist...)
+		}
+		g.Emit("tcolor %s %d %s%s", en, h.Pick(g.R, C), tiShowList(bs), tiHistorySuffix(hist))
+	}
+	// every entry once more after the lookups of its family's synthesized names
+	for _, e := range ents {
+		g.Emit("tcolor %s %d %s%s", e.name, h.Pick(g.R, []int{-1, 1, 9, 200}), tiShowList([]int{-1, 1, 9, 12, 100, 255}), tiHistorySuffix(tiSiblingLookups(g.R, e.name)))
 	}
 }
 
